@@ -92,7 +92,7 @@ Section Contra.
     extrap None (Some s) (Some c) radius res None units = Err.
   Proof.
     intros Hr Hd H0 H1 H. unfold extrapolate. rewrite Hr. cbn [bind]. rewrite Hd. cbn [bind].
-    cbn [eqb RO zeroT ofZ]. rewrite !Reqb_false by assumption. cbn [orb].
+    unfold round_shape_kw. cbn [eqb RO zeroT ofZ fst snd]. rewrite !Reqb_false by assumption. cbn [orb].
     rewrite round_shape_R. cbn [bind fst snd div mul twoT ofZ RO].
     apply (validate_shape_far s (round_dim RO (2 * snd r / snd d), round_dim RO (2 * fst r / fst d))) in H. now rewrite H.
   Qed.
